@@ -380,3 +380,63 @@ func (d *Driver) Levels(levels []zapcore.Level) {
 	}
 	l.done()
 }
+
+// CallerPaths enumerates every caller file path of <= maxUnits units over
+// {"/", "d", "f.go", "\\"} (absolute, relative, root-level, empty segments,
+// trailing separators, no separator at all) x two line numbers.
+func CallerPaths(maxUnits int) []zapcore.EntryCaller {
+	units := []string{"/", "d", "f.go", "\\"}
+	var out []zapcore.EntryCaller
+	var rec func(prefix string, n int)
+	rec = func(prefix string, n int) {
+		for _, line := range []int{0, 7} {
+			out = append(out, zapcore.EntryCaller{Defined: true, File: prefix, Line: line, Function: "pkg.Fn"})
+		}
+		if n == maxUnits {
+			return
+		}
+		for _, u := range units {
+			rec(prefix+u, n+1)
+		}
+	}
+	rec("", 0)
+	return out
+}
+
+// Callers runs every caller path on the default configuration with the short
+// and the full caller encoder.
+func (d *Driver) Callers(maxUnits int) {
+	l := d.local("caller-paths")
+	for _, ce := range []string{"short", "full"} {
+		c := DefaultCfg()
+		c.CallerEnc = ce
+		enc := zapcore.NewJSONEncoder(c.EncoderConfig())
+		for _, cl := range CallerPaths(maxUnits) {
+			e := DefaultEnt()
+			e.Caller = cl
+			p := Placement{Call: []*Spec{plain()}}
+			file, line := cl.File, cl.Line
+			l.one(c, enc, e, p, false, func(kind, msg string) string { return fmt.Sprintf("caller-path:%s:%s:%s", kind, ce, pathShape(file)) }, func() string {
+				return fmt.Sprintf("caller file %q line %d with the %s caller encoder", file, line, ce)
+			})
+		}
+	}
+	l.done()
+}
+
+// pathShape classifies a path by its separators only (d = directory or file
+// name), e.g. "/d/d".
+func pathShape(f string) string {
+	s := ""
+	in := false
+	for i := 0; i < len(f); i++ {
+		if f[i] == '/' {
+			s += "/"
+			in = false
+		} else if !in {
+			s += "d"
+			in = true
+		}
+	}
+	return s
+}
